@@ -1,6 +1,329 @@
-"""Loop invariants (filled in below) -- install() hooks the interpreter's loop handling."""
+"""Loops over data of unknown length are cut by invariants (DESIGN.md App. D.3).
+
+Contract attributes used here:
+
+  invariants = {k: lambda <locals...>, _k, old: bool}    k = ordinal of the loop in the
+                                                         function's source order (for/while,
+                                                         nested ones included, depth-first)
+  loop_vars  = {k: {"name": shape}}                      shapes for variables modified in the
+                                                         loop whose shape cannot be read off
+                                                         their entry value (e.g. a list that
+                                                         is empty at entry)
+  decreases  = {k: lambda <locals...>: int}              while loops: variant
+
+Obligations:  inv<k>.init, inv<k>.preserve, dec<k>.  After the loop the modified variables
+are havocked and the invariant (with `_k = len`) and the negated guard are assumed.
+"""
+import ast
+import z3
+
 from .values import *
+from . import values as V
+from . import interp as I
+from . import ops
+from . import shapes as S
+from .seqs import *
+
+_MUTATORS = {"append", "extend", "pop", "popleft", "add", "insert", "update", "remove", "clear", "sort", "appendleft", "discard", "setdefault"}
+
+
+def loop_nodes(func_node):
+    out = []
+
+    def walk(body):
+        for st in body:
+            if isinstance(st, (ast.For, ast.While)):
+                out.append(st)
+                walk(st.body)
+                walk(st.orelse)
+            elif isinstance(st, (ast.If,)):
+                walk(st.body)
+                walk(st.orelse)
+            elif isinstance(st, ast.Try):
+                walk(st.body)
+                for h in st.handlers:
+                    walk(h.body)
+                walk(st.orelse)
+                walk(st.finalbody)
+            elif isinstance(st, ast.With):
+                walk(st.body)
+
+    walk(func_node.body)
+    return out
+
+
+def modified_names(loop):
+    names = set()
+    for n in ast.walk(loop):
+        if isinstance(n, (ast.Assign, ast.AugAssign, ast.AnnAssign)):
+            targets = n.targets if isinstance(n, ast.Assign) else [n.target]
+            for t in targets:
+                for x in ast.walk(t):
+                    if isinstance(x, ast.Name) and isinstance(x.ctx, ast.Store):
+                        names.add(x.id)
+                base = t
+                while isinstance(base, (ast.Subscript, ast.Attribute)):
+                    base = base.value
+                if isinstance(base, ast.Name):
+                    names.add(base.id)
+        elif isinstance(n, ast.Call) and isinstance(n.func, ast.Attribute) and n.func.attr in _MUTATORS:
+            base = n.func.value
+            while isinstance(base, (ast.Subscript, ast.Attribute)):
+                base = base.value
+            if isinstance(base, ast.Name):
+                names.add(base.id)
+        elif isinstance(n, (ast.For, ast.comprehension)):
+            for x in ast.walk(n.target):
+                if isinstance(x, ast.Name):
+                    names.add(x.id)
+        elif isinstance(n, ast.NamedExpr):
+            names.add(n.target.id)
+    return names
+
+
+class WindowV:
+    """a deque built from a symbolic sequence: base[lo:hi]"""
+
+    def __init__(self, base, lo=None, hi=None):
+        self.base = base
+        self.lo = z3.IntVal(0) if lo is None else lo
+        self.hi = base.length if hi is None else hi
+
+    def length(self, ip):
+        return mk(self.hi - self.lo, "int")
+
+    def get_item(self, ip, idx):
+        if idx == 0 or idx == -1:
+            nonempty = mk(self.hi > self.lo, "bool")
+            if not ip.pure and not ip.branch(nonempty):
+                raise PyRaise(ExcV("IndexError", ()))
+            return self.base.get(z3.simplify(self.lo if idx == 0 else self.hi - 1))
+        raise EngineError("deque index other than 0 / -1")
+
+    def truthy(self):
+        return mk(self.hi > self.lo, "bool")
+
+    def get_attr(self, ip, name):
+        def nonempty():
+            ne = mk(self.hi > self.lo, "bool")
+            if not ip.pure and not ip.branch(ne):
+                raise PyRaise(ExcV("IndexError", ("pop from an empty deque",)))
+
+        if name == "popleft":
+            def f(ip_, a, k):
+                nonempty()
+                v = self.base.get(z3.simplify(self.lo))
+                self.lo = z3.simplify(self.lo + 1)
+                return v
+            return I.PyFn("popleft", f)
+        if name == "pop":
+            def f(ip_, a, k):
+                nonempty()
+                v = self.base.get(z3.simplify(self.hi - 1))
+                self.hi = z3.simplify(self.hi - 1)
+                return v
+            return I.PyFn("pop", f)
+        raise EngineError(f"deque.{name} on a symbolic window")
+
+
+def havoc_like(ip, mk_, name, val, tag):
+    """fresh value with the shape of `val`"""
+    nm = f"{name}~{tag}"
+    if isinstance(val, Sym):
+        return V.Sym(z3.Const(nm, S._z3sort(val.sort)), val.sort)
+    if isinstance(val, bool):
+        return V.Sym(z3.Bool(nm), "bool")
+    if isinstance(val, int):
+        return V.Sym(z3.Int(nm), "int")
+    from fractions import Fraction
+
+    if isinstance(val, Fraction):
+        return V.Sym(z3.Real(nm), "real")
+    if isinstance(val, Rec):
+        return Rec(val.cls, {k: havoc_like(ip, mk_, f"{nm}.{k}", v, "") for k, v in val.f.items()}, val.mutable)
+    if isinstance(val, tuple):
+        return tuple(havoc_like(ip, mk_, f"{nm}.{i}", v, "") for i, v in enumerate(val))
+    if isinstance(val, Opaque):
+        return Opaque(z3.Const(nm, S.usort(val.tag)), val.tag)
+    if isinstance(val, Opt):
+        return Opt(z3.Bool(nm + "?"), havoc_like(ip, mk_, nm, val.value, ""))
+    if isinstance(val, SeqV):
+        ln = z3.Int(nm + ".len")
+        ip.assume(ln >= 0)
+        probe = val.get(z3.Int("probe!"))
+        return SeqV(ln, lambda j, probe=probe, nm=nm: _elem_like(ip, nm + "[]", probe, j), val.kind, val.name)
+    if isinstance(val, WindowV):
+        lo, hi = z3.Int(nm + ".lo"), z3.Int(nm + ".hi")
+        ip.assume(z3.And(0 <= lo, lo <= hi, hi <= val.base.length))
+        return WindowV(val.base, lo, hi)
+    if val is None:
+        return None
+    if isinstance(val, (I.NS, I.FuncV, I.ClassV, ExternalV)):
+        return val
+    raise EngineError(f"cannot havoc {name} = {val!r}: give its shape in loop_vars")
+
+
+def _elem_like(ip, nm, probe, j):
+    if isinstance(probe, Sym):
+        f = z3.Function(nm, z3.IntSort(), S._z3sort(probe.sort))
+        return V.Sym(f(j), probe.sort)
+    if isinstance(probe, Rec):
+        return Rec(probe.cls, {k: _elem_like(ip, f"{nm}.{k}", v, j) for k, v in probe.f.items()})
+    if isinstance(probe, tuple):
+        return tuple(_elem_like(ip, f"{nm}.{i}", v, j) for i, v in enumerate(probe))
+    if isinstance(probe, I.NS):
+        return I.NS(**{k: _elem_like(ip, f"{nm}.{k}", v, j) for k, v in probe.__dict__.items()})
+    if isinstance(probe, Opaque):
+        f = z3.Function(nm, z3.IntSort(), S.usort(probe.tag))
+        return Opaque(f(j), probe.tag)
+    if isinstance(probe, Opt):
+        f = z3.Function(nm + "?", z3.IntSort(), z3.BoolSort())
+        return Opt(f(j), _elem_like(ip, nm, probe.value, j))
+    if isinstance(probe, SizedV):
+        f = z3.Function(nm + ".nbytes", z3.IntSort(), z3.IntSort())
+        return SizedV(f(j))
+    if isinstance(probe, (int, str)) or probe is None:
+        return probe
+    raise EngineError(f"element shape {probe!r}")
 
 
 def install(ip, contract, func, allv):
-    return None
+    loops = loop_nodes(func.node)
+    index = {id(n): k for k, n in enumerate(loops)}
+    state = {"count": {}}
+
+    def call_inv(fn, env, extra):
+        a = fn.node.args
+        names = [p.arg for p in a.posonlyargs + a.args]
+        kw = {}
+        for n in names:
+            if n in extra:
+                kw[n] = extra[n]
+            else:
+                try:
+                    kw[n] = env.lookup(n, ip)
+                except PyRaise:
+                    raise EngineError(f"invariant refers to unknown name {n!r}")
+        ip.pure += 1
+        try:
+            return to_bool_term(ip.truth(ip.call_function(fn, [], kw)))
+        finally:
+            ip.pure -= 1
+
+    def hook(ip_, st, env, it):
+        k = index.get(id(st))
+        if k is None:
+            return NotImpl
+        inv = contract.invariants.get(k)
+        if isinstance(st, ast.While):
+            if inv is None:
+                return NotImpl  # concrete while loops run as they are
+        if inv is None:
+            raise EngineError(f"loop #{k} (line {st.lineno}) of {func.qualname} iterates over data of unknown length and has no invariant")
+        occ = state["count"].get(k, 0)
+        state["count"][k] = occ + 1
+        tag = f"L{k}" + (f"_{occ}" if occ else "")
+        old = I.NS(**{n: v for n, v in env.vars.items() if n != "__qualname__"})
+        mods = modified_names(st)
+        decl = contract.loop_vars.get(k, {}) if hasattr(contract, "loop_vars") else {}
+        is_for = isinstance(st, ast.For)
+        if is_for:
+            if isinstance(it, SeqV):
+                n_items = it.length
+                item = it.get
+            elif hasattr(it, "lo"):
+                lo, hi = term(it.lo, "int"), term(it.hi, "int")
+                n_items = z3.If(hi > lo, hi - lo, 0)
+                item = lambda j: mk(lo + j, "int")
+            elif isinstance(it, SetV):
+                n_items = it.enum.length
+                item = it.enum.get
+            else:
+                raise EngineError("loop hook on unsupported iterable")
+        # concrete lists that the loop grows become symbolic sequences of the declared shape
+        for n, sh in decl.items():
+            cur = env.vars.get(n)
+            if isinstance(cur, (list, tuple)) and isinstance(sh, S.Shape) and sh.kind == "seq":
+                items = list(cur)
+                mk0 = S.Maker(ip_)
+
+                def get(j, items=items, sh=sh, n=n, mk0=mk0):
+                    res = mk0.make(sh.a[0], f"{n}~{tag}unset[]", (j,))
+                    for kk_ in reversed(range(len(items))):
+                        res = ip_.ite_val(mk(j == kk_, "bool"), items[kk_], res)
+                    return res
+
+                env.vars[n] = SeqV(z3.IntVal(len(items)), get, "list" if isinstance(cur, list) else "tuple", n)
+        # ---- init
+        g0 = call_inv(inv, env, {"_k": 0, "old": old})
+        ip_.obligations.append((f"inv{k}.init", list(ip_.pc), g0))
+
+        def havoc(phase):
+            mk_ = S.Maker(ip_)
+            for n in sorted(mods):
+                if is_for and any(isinstance(x, ast.Name) and x.id == n for x in ast.walk(st.target)):
+                    continue
+                if n in decl:
+                    env.vars[n] = mk_.make(decl[n], f"{n}~{tag}{phase}")
+                elif n in env.vars:
+                    env.vars[n] = havoc_like(ip_, mk_, n, env.vars[n], tag + phase)
+                # names first assigned inside the loop need no havoc
+            for t in mk_.side:
+                ip_.assume(t)
+
+        choice = V.Sym(z3.Bool(f"in_loop~{tag}"), "bool")
+        if ip_.branch(choice):
+            # ---- an arbitrary iteration
+            havoc("i")
+            kk = z3.Int(f"_k~{tag}")
+            if is_for:
+                ip_.assume(z3.And(kk >= 0, kk < n_items))
+            else:
+                ip_.assume(kk >= 0)
+            ip_.assume(call_inv(inv, env, {"_k": V.Sym(kk, "int"), "old": old}))
+            dec = contract.decreases.get(k) if contract.decreases else None
+            if is_for:
+                ip_.assign(st.target, item(kk), env)
+            else:
+                c = ip_.cond(st.test, env)
+                if not ip_.branch(c):
+                    raise I.PathPruned()
+            d0 = None
+            if dec is not None:
+                d0 = call_dec(dec, env)
+            try:
+                ip_.exec_block(st.body, env)
+            except I.ContinueSig:
+                pass
+            except I.BreakSig:
+                return  # leaves the loop with the state at the break
+            g1 = call_inv(inv, env, {"_k": V.Sym(z3.simplify(kk + 1), "int"), "old": old})
+            ip_.obligations.append((f"inv{k}.preserve", list(ip_.pc), g1))
+            if dec is not None:
+                d1 = call_dec(dec, env)
+                ip_.obligations.append((f"dec{k}", list(ip_.pc), z3.And(term(d0, "int") >= 0, term(d1, "int") < term(d0, "int"))))
+            raise I.PathPruned()
+        # ---- after the loop
+        havoc("x")
+        if is_for:
+            ip_.assume(call_inv(inv, env, {"_k": mk(n_items, "int"), "old": old}))
+        else:
+            kx = z3.Int(f"_k~{tag}x")
+            ip_.assume(kx >= 0)
+            ip_.assume(call_inv(inv, env, {"_k": V.Sym(kx, "int"), "old": old}))
+            c = ip_.cond(st.test, env)
+            if ip_.branch(c):
+                raise I.PathPruned()
+        ip_.exec_block(st.orelse, env)
+        return None
+
+    def call_dec(fn, env):
+        a = fn.node.args
+        kw = {p.arg: env.lookup(p.arg, ip) for p in a.posonlyargs + a.args}
+        ip.pure += 1
+        try:
+            return ip.call_function(fn, [], kw)
+        finally:
+            ip.pure -= 1
+
+    ip.loop_hook = hook
